@@ -5,6 +5,7 @@ CRATE = "e_mint"
 DRIVER = "drv_mint"
 DRIVER_MODULE = "Driver.Mint"
 PROPS = "RlibModel.Props.C06"
+PROPS_SRC = "RlibModel.Props.C06Src"     # second tie: `src_*` theorems about the definitions regenerated from the source text
 PROFILES = ["release"]
 SHRINK_SEP = None
 RULE = ("cases: for every modulus 2..=64 every operand pair x {+,-,*,/,==, assigning forms}, every residue x {neg, inv, Display/Debug}, "
